@@ -111,6 +111,27 @@ CHECKS = {
         "uninterpreted (compiled code); path lengths beyond the bound are outside the claim.",
         design="3/C09",
     ),
+    "C10": dict(
+        engine="E2",
+        technique="symbolic execution of the real Collection move / rotate (parent-path anchor branch) / position= / orientation= / reset_path over z3 "
+        "terms with unit-quaternion rotations; relative poses q_C^-1(p-p_C), q_C^-1 q of every descendant compared before/after as QF_NRA obligations",
+        text="Bounded symbolic model checking, one inductive step from an arbitrary state: for trees of depth <=2 whose members share the "
+        "collection's path length, every operation on the root or an inner collection keeps each descendant's pose in the collection "
+        "frame at every new path index (compared with the old index it derives from), for all real poses and arguments; operating on a "
+        "child alone leaves all other objects term-identical.",
+        note="Real arithmetic, unit quaternions, rotations up to quaternion sign; N<=2 (quick) / 3 (thorough); start values and input lengths from stated lists.",
+        design="3/C10",
+    ),
+    "C11": dict(
+        engine="E1",
+        technique="CrossHair (z3) symbolic execution of the real add / remove / parent= / children= / sources= / sensors= / collections= / + / copy "
+        "from an arbitrary valid forest chosen by symbolic integers (inductive step), invariant checked after return or exception; reachability twins",
+        text="Bounded symbolic model checking of the tree invariant (single parent, parent/children agreement with multiplicity one, acyclic, typed "
+        "views and *_all flattenings): every condition is 'Confirmed over all paths' by CrossHair for all valid pre-states over the universe and "
+        "all argument/flag combinations, including argument lists rejected part-way.",
+        note="Universe of 4 (quick) / 5 (thorough) concrete objects, <=2 arguments per call; validity of the pre-state is the invariant itself.",
+        design="3/C11",
+    ),
 }
 
 NOT_APPLICABLE = {
